@@ -312,6 +312,12 @@ ExtCmpVerdict(c) ==
                     ELSE IF ~SeqEquiv(R, want, Values(rb.ev)) THEN <<"C10:expanded run denotes a different value than the stream">>
                     ELSE <<>>)
                 \o (IF x.depA # x.depB THEN <<"C10:consumer left in a different state (nesting depths differ)">> ELSE <<>>)
+                \* the library's own parser, handed the extended run's document in two or three pieces (sub.split)
+                \o (IF x.perr = "none" \/ ra.class # "complete" \/ ra.done # NValues(in) THEN <<>>
+                    ELSE IF x.perr # "nil" THEN <<"C10:the document of the extended run is refused by the format's own parser when it arrives in pieces">>
+                    ELSE IF ~SeqEquiv(R \cup ParseRules(cons), want, Values(x.pev))
+                         THEN <<"C10:the document of the extended run decodes to a different value when the format's own parser reads it in pieces">>
+                    ELSE <<>>)
       ELSE <<>>)
 
 \* ---- kind "fault" (C16) ------------------------------------------------------------
